@@ -518,7 +518,7 @@ impl Finding {
 /// that pin a thread inside a two-step window) are kept.
 pub fn pick_profile(rng: &mut Rng) -> vh_core::chaos::Profile {
   let mut p = vh_core::chaos::Profile::pick(rng);
-  let div = *rng.pick(&[4u32, 8, 16]);
+  let div = *rng.pick(&[2u32, 4, 8, 16]);
   p.p_sleep /= div;
   p.p_yield /= div / 2;
   p.p_spin /= 2;
